@@ -10,9 +10,16 @@ every Python `set` the algorithm iterates is an INPUT of the model (a schedule):
 below hold for every schedule; the correspondence feeds the orders recorded from the running
 implementation (`harness/uf_internals.py`, step-granular comparison).
 
+`Peeling_Tree.peel` is modelled as it is SINCE the repair of known finding D15: one qubit per
+syndrome-carrying leaf, the first one it shares with its parent (`shared.argmax(axis=1)`).  The
+code before the repair (EVERY shared qubit: `np.where(…)[1]`) is kept as `oldPeelRound … oldDecodeWith,
+oldUfSolve` for the regression theorems at the end.
+
 What is proved here (helper lemmas: `Proofs/UnionFind*.lean`), for every matrix satisfying the
-decidable predicate `graphLike` (rectangular, 0/1, every column of weight ≤ 2, no two rows sharing
-two columns: a simple graph with dangling edges allowed), every syndrome and every schedule:
+decidable predicate `multigraphLike` (rectangular, 0/1, every column of weight ≤ 2, two
+different rows sharing fewer than 256 columns: a MULTIgraph — parallel edges and dangling edges
+allowed; the simple graphs `graphLike` of the theorems before the repair are the special case
+"at most one shared column", `uf_simple_graphs_included`), every syndrome and every schedule:
 
 * `uf_build_tree_spanning`  — `_build_tree` terminates on a connected cluster and returns a
   spanning tree of the member stabilizers along member qubits together with its leaf list;
@@ -24,26 +31,36 @@ two columns: a simple graph with dangling edges allowed), every syndrome and eve
   defect lies in exactly one cluster, `_s_parents`/`_q_parents` point at the roots, and the
   run never left the modelled fragment (no negative-index wrap in `find_root`, parent chains
   shorter than the array);
-* `uf_growth_terminates`     — (b) on a CLOSED graph (`closedGraph`: graph-like and every column
-  of weight 0 or 2, i.e. no dangling edges — the toric lattices with sides ≥ 3) the growth loop
-  terminates within the fuel `m·n + 1` for the syndrome of any error: every odd cluster has a
-  boundary element with a nonzero entry left in `_H_to_grow` (else it would be a union of
-  connected components with an odd number of defects), so every turn zeroes an entry;
+* `uf_growth_terminates`     — (b) on a CLOSED multigraph (`closedMultigraph`: multigraph-like and
+  every column of weight 0 or 2, i.e. no dangling edges — ALL toric lattices, sides ≥ 2) the
+  growth loop terminates within the fuel `m·n + 1` for the syndrome of any error: every odd
+  cluster has a boundary element with a nonzero entry left in `_H_to_grow` (else it would be a
+  union of connected components with an odd number of defects), so every turn zeroes an entry;
 * `uf_decode_total`, `uf_solver_contract`, `unionfind_decoder_reproduces_syndrome` — (c) hence
   `Support.decode()` returns a binary vector of length `n` with `syndrome(correction) = syndrome`,
-  for every closed graph, every error and every schedule; this DISCHARGES the solver contract
-  `UfValidOn` of `C05.unionfind_correction_reproduces_syndrome` for the model of the internals:
-  the glue theorem holds for `UnionFindDecoder` with no hypothesis on the solver left.
-* `uf_decode_partial`, `uf_solver_contract_partial` — for graph-like matrices WITH dangling
+  for every closed multigraph, every error and every schedule; this DISCHARGES the solver
+  contract `UfValidOn` of `C05.unionfind_correction_reproduces_syndrome` for the model of the
+  internals: the glue theorem holds for `UnionFindDecoder` with no hypothesis on the solver left.
+* `uf_decode_partial`, `uf_solver_contract_partial` — for multigraph-like matrices WITH dangling
   edges (columns of weight 1: planar codes) only partial correctness holds: whenever the growth
   loop terminates the answer is right.  The gap (termination) cannot be closed there: a
   connected component can carry an odd number of defects and the real `Support.clustering`
   loops for ever (example below; observed and compared on every run).
-* `uf_fails_on_parallel_edges` — (d) the hypothesis is necessary: on `Hz` of `Toric2DCode(2,2)`
-  (every pair of adjacent vertices is joined by two qubits) the model — like the implementation —
-  answers the syndrome of an X error on qubit 0 with qubits {0, 2}, whose syndrome is zero.
+* regression (d): `old_uf_fails_on_parallel_edges` — the code BEFORE the repair, on `Hz` of
+  `Toric2DCode(2,2)` (every pair of adjacent vertices is joined by two qubits), answered the
+  syndrome of an X error on qubit 0 with qubits {0, 2}, whose syndrome is zero;
+  `uf_fixed_on_parallel_edges` — the repaired code answers it with qubit 0 alone;
+  `uf_toric22_not_graphLike`, `uf_toric22_closedMultigraph` — the witness was outside the old
+  hypothesis and is inside the new one; `uf_fix_conservative` — on every simple graph
+  (`graphLike`), for every syndrome and schedule, the code before and after the repair return
+  the same result, step for step (every peeling trace): the repair changes nothing where the
+  old code was proved correct.
+* `uf_build_tree_wraps_at_256` — the bound 256 of `multigraphLike` is not an artefact: two
+  stabilizers joined by 256 qubits are not adjacent in `(H @ H.T).astype(bool)` (`uint8`
+  product), the breadth-first search never reaches the second one (the Python loops for ever).
 -/
 import PanqecVerif.Proofs.UnionFindTermD
+import PanqecVerif.Proofs.UnionFindOld
 import PanqecVerif.Proofs.DecodersGlue
 
 namespace Panqec.C05UF
@@ -56,48 +73,49 @@ open Panqec Panqec.UF
     rounds; the returned matrix is a spanning tree (`TreeOK`: unique parents, edges are shared
     member qubits, strictly increasing depth, every member but the root has a parent) and the
     returned list is the list of its leaves. -/
-theorem uf_build_tree_spanning (H : Mat) (hG : graphLike H = true) (sPar qPar : Nat → Int) (r : Nat)
+theorem uf_build_tree_spanning (H : Mat) (hG : multigraphLike H = true) (sPar qPar : Nat → Int) (r : Nat)
     (hroot : stabsOf H sPar r r = true)
     (hconn : ∀ v, stabsOf H sPar r v = true → Reach H (stabsOf H sPar r) (qubitsOf H qPar r) r v) :
     ∃ S0 leaves, buildTree H (stabsOf H sPar r) (qubitsOf H qPar r) r = some (S0, leaves) ∧
       TreeOK H (stabsOf H sPar r) (qubitsOf H qPar r) r S0 ∧ LeavesOK (stabsOf H sPar r) r S0 leaves :=
-  buildTree_spec (graphLike_ok hG).1 (fun _ h => stabsOf_lt h) hroot hconn
+  buildTree_spec (multigraphLike_ok hG).1 (fun _ h => stabsOf_lt h) hroot hconn
 
-/-- **(a) peeling**: `Peeling_Tree(r, …).peel()` on a connected cluster with an even number of
+/-- **(a) peeling**: `Peeling_Tree(r, …).peel()` (one qubit per syndrome-carrying leaf: the first
+    member qubit it shares with its parent) on a connected cluster with an even number of
     defects returns (no divergence, no shape error) a duplicate-free list of member qubits such
     that, for EVERY row `s` of the full matrix, the number of listed qubits in row `s` is odd
     exactly when `s` is a defect of the cluster. -/
-theorem uf_peeling_boundary (H : Mat) (hG : graphLike H = true) (sy : Vec) (sPar qPar : Nat → Int)
+theorem uf_peeling_boundary (H : Mat) (hG : multigraphLike H = true) (sy : Vec) (sPar qPar : Nat → Int)
     (r : Nat) (hroot : stabsOf H sPar r r = true)
     (hconn : ∀ v, stabsOf H sPar r v = true → Reach H (stabsOf H sPar r) (qubitsOf H qPar r) r v)
     (heven : cnt H.length (fun s => defect sy s && stabsOf H sPar r s) % 2 = 0) :
     ∃ t, peelTree H sy sPar qPar r = .ok t ∧ t.corr.Nodup ∧
       (∀ q, q ∈ t.corr → qubitsOf H qPar r q = true) ∧
       ∀ s, t.corr.countP (fun q => hb H s q) % 2 = b2n (defect sy s && stabsOf H sPar r s) :=
-  peelTree_spec (graphLike_ok hG).1 sy sPar qPar r hroot hconn heven
+  peelTree_spec (multigraphLike_ok hG).1 sy sPar qPar r hroot hconn heven
 
 /-- **growth**: whenever `Support.clustering()` terminates, its result satisfies `ClusterPost`
     (distinct roots that are their own parents; every defect in exactly one cluster; every cluster
     connected through its own qubits; an even number of defects per cluster) and the run stayed
     inside the modelled fragment — for every schedule of set iteration orders. -/
-theorem uf_clustering_post (H : Mat) (hG : graphLike H = true) (sy : Vec) (sched : List (List Int))
+theorem uf_clustering_post (H : Mat) (hG : multigraphLike H = true) (sy : Vec) (sched : List (List Int))
     (hterm : (clustering H sy sched).terminated = true) :
     ClusterPost H sy (clustering H sy sched).roots (clustering H sy sched).sPar
       (clustering H sy sched).qPar ∧ (clustering H sy sched).bad = false :=
-  clustering_post (graphLike_ok hG).1 sy sched hterm
+  clustering_post (multigraphLike_ok hG).1 sy sched hterm
 
 /-- **(b) termination of the growth loop** (`while smallest_cluster` in `Support.clustering`):
-    on a closed graph, for the syndrome of any error `v` and every schedule, the loop stops
+    on a closed multigraph, for the syndrome of any error `v` and every schedule, the loop stops
     within `m·n + 1` turns. -/
-theorem uf_growth_terminates (H : Mat) (hC : closedGraph H = true) (v : Vec)
+theorem uf_growth_terminates (H : Mat) (hC : closedMultigraph H = true) (v : Vec)
     (hv : v.length = ncols H) (sched : List (List Int)) :
     (clustering H (sectorSyndrome H v) sched).terminated = true :=
   clustering_terminates hC v hv sched
 
-/-- **(c) `Support(sy, H).decode()` is correct on closed graphs**: for every error `v` and every
-    schedule the run terminates in all three phases, raises nothing, never leaves the modelled
+/-- **(c) `Support(sy, H).decode()` is correct on closed multigraphs** (columns of weight 0 or 2,
+    parallel edges allowed): for every error `v` and every schedule the run terminates in all three phases, raises nothing, never leaves the modelled
     fragment, and returns a binary vector of length `n` with the syndrome of `v`. -/
-theorem uf_decode_total (H : Mat) (hC : closedGraph H = true) (v : Vec) (hv : v.length = ncols H)
+theorem uf_decode_total (H : Mat) (hC : closedMultigraph H = true) (v : Vec) (hv : v.length = ncols H)
     (sched : List (List Int)) :
     ∃ c, (decodeWith H (sectorSyndrome H v) sched).outcome = .ok c ∧ c.length = ncols H ∧
       (∀ x, x ∈ c → x < 2) ∧ sectorSyndrome H c = sectorSyndrome H v ∧
@@ -105,8 +123,8 @@ theorem uf_decode_total (H : Mat) (hC : closedGraph H = true) (v : Vec) (hv : v.
   decodeWith_total hC v hv sched
 
 /-- the contract `UfValidOn` (`Proofs/DecodersGlue.lean`) holds for the model of the internals on
-    every closed graph -/
-theorem uf_solver_contract (H : Mat) (hC : closedGraph H = true) :
+    every closed multigraph -/
+theorem uf_solver_contract (H : Mat) (hC : closedMultigraph H = true) :
     UfValidOn (ncols H) ufSolve H := by
   intro sy ⟨v, hv, hsy⟩
   subst hsy
@@ -116,11 +134,11 @@ theorem uf_solver_contract (H : Mat) (hC : closedGraph H = true) :
   exact ⟨hlen, hbin, hsyn⟩
 
 /-- **UnionFindDecoder, end to end** (glue of `uf_decoder.py` + internals of `uf_support.py`): for
-    every CSS matrix whose two sector matrices are closed graphs on `n` qubits and every error `e`,
+    every CSS matrix whose two sector matrices are closed multigraphs on `n` qubits and every error `e`,
     `decode(measure_syndrome(e))` returns a binary vector of length `2n` with exactly the
     measured syndrome — no hypothesis on a solver left. -/
 theorem unionfind_decoder_reproduces_syndrome (H : Mat) (n : Nat) (hcss : isCss H = true)
-    (hz : closedGraph (Hz H) = true) (hx : closedGraph (Hx H) = true)
+    (hz : closedMultigraph (Hz H) = true) (hx : closedMultigraph (Hx H) = true)
     (hnz : ncols (Hz H) = n) (hnx : ncols (Hx H) = n) (e : Vec) (he : e.length = 2 * n) :
     ∃ c ev, ufDecode ufSolve H n (measureSyndrome H e) = .ok (c, ev) ∧
       c.length = 2 * n ∧ (∀ x ∈ c, x < 2) ∧ measureSyndrome H c = measureSyndrome H e := by
@@ -128,12 +146,12 @@ theorem unionfind_decoder_reproduces_syndrome (H : Mat) (n : Nat) (hcss : isCss 
     (hnz ▸ uf_solver_contract (Hz H) hz) (hnx ▸ uf_solver_contract (Hx H) hx) e he
   exact ⟨c, ev, h1, h3, h4, h5⟩
 
-/-- **partial correctness with dangling edges**: `Support(sy, H).decode()` for every graph-like
-    `H` (columns of weight 1 allowed), every syndrome and every schedule either does not
+/-- **partial correctness with dangling edges**: `Support(sy, H).decode()` for every
+    multigraph-like `H` (columns of weight 1 allowed), every syndrome and every schedule either does not
     terminate in the growth phase, or returns a binary vector of length `n` whose syndrome is
     exactly the list of defect flags.  Named `_partial` because termination is missing; it
     cannot be added: see `hzPlanar22` below. -/
-theorem uf_decode_partial (H : Mat) (hG : graphLike H = true) (sy : Vec) (sched : List (List Int)) :
+theorem uf_decode_partial (H : Mat) (hG : multigraphLike H = true) (sy : Vec) (sched : List (List Int)) :
     ((decodeWith H sy sched).outcome = .growthDiverges ∨
       ∃ c, (decodeWith H sy sched).outcome = .ok c ∧ c.length = ncols H ∧ (∀ x, x ∈ c → x < 2) ∧
         sectorSyndrome H c = (List.range H.length).map fun s => b2n (defect sy s)) ∧
@@ -141,9 +159,9 @@ theorem uf_decode_partial (H : Mat) (hG : graphLike H = true) (sy : Vec) (sched 
   decodeWith_partial hG sy sched
 
 /-- **the solver contract of `C05.unionfind_correction_reproduces_syndrome`, discharged for
-    the model up to termination**: for a graph-like matrix and a syndrome in its image, the model
+    the model up to termination**: for a multigraph-like matrix and a syndrome in its image, the model
     (under any schedule) either diverges in the growth phase or `Solves` the syndrome equation. -/
-theorem uf_solver_contract_partial (H : Mat) (hG : graphLike H = true) (sy : Vec)
+theorem uf_solver_contract_partial (H : Mat) (hG : multigraphLike H = true) (sy : Vec)
     (hf : Feasible (ncols H) H sy) (sched : List (List Int)) :
     (decodeWith H sy sched).outcome = .growthDiverges ∨
       ∃ c, (decodeWith H sy sched).outcome = .ok c ∧ Solves (ncols H) H sy c := by
@@ -156,28 +174,114 @@ theorem uf_solver_contract_partial (H : Mat) (hG : graphLike H = true) (sy : Vec
     · rw [← hv]; unfold sectorSyndrome; simp
     · rw [← hv]; exact sectorSyndrome_binary H v
 
-/-! ### (d) the hypothesis is necessary: `Toric2DCode(2, 2)` -/
+/-- the hypotheses of the theorems before the repair (simple graphs) are special cases: every
+    theorem above applies to every `graphLike` / `closedGraph` matrix -/
+theorem uf_simple_graphs_included (H : Mat) :
+    (graphLike H = true → multigraphLike H = true) ∧
+    (closedGraph H = true → closedMultigraph H = true) :=
+  ⟨graphLike_multi, closedGraph_multi⟩
+
+/-! ### (d) regression: `Toric2DCode(2, 2)`, before and after the repair of `peel` -/
 
 /-- `Toric2DCode(2,2).Hz`: every two adjacent vertices are joined by TWO qubits -/
 def hzToric22 : Mat :=
   [[1,0,1,0,1,1,0,0],[0,1,0,1,1,1,0,0],[1,0,1,0,0,0,1,1],[0,1,0,1,0,0,1,1]]
 
-/-- the witness of the known finding is outside the hypothesis of the theorems above … -/
+/-- the witness of the former finding D15 is not a simple graph (it was outside the hypothesis
+    of the theorems about the code before the repair) … -/
 theorem uf_toric22_not_graphLike : graphLike hzToric22 = false := by decide
 
-/-- … and the model FAILS on it exactly like the implementation: the syndrome `1010` of an X
-    error on qubit 0 is answered by qubits {0, 2} (both parallel qubits of the tree edge are
-    added by `np.where(parent_qubits & leaf_qubits)`), whose syndrome is zero. -/
-theorem uf_fails_on_parallel_edges :
+/-- … and it is a closed multigraph: inside the hypothesis of the theorems above -/
+theorem uf_toric22_closedMultigraph : closedMultigraph hzToric22 = true := by decide +kernel
+
+/-- **the code BEFORE the repair failed on it** (`oldDecodeWith`, `oldUfSolve`: `peel` with
+    `np.where(parent_qubits & leaf_qubits)[1]`): the syndrome `1010` of an X error on qubit 0 was
+    answered by qubits {0, 2} — both parallel qubits of the tree edge — whose syndrome is zero. -/
+theorem old_uf_fails_on_parallel_edges :
     sectorSyndrome hzToric22 [1,0,0,0,0,0,0,0] = [1,0,1,0] ∧
-    (decodeWith hzToric22 [1,0,1,0] []).outcome = .ok [1,0,1,0,0,0,0,0] ∧
+    (oldDecodeWith hzToric22 [1,0,1,0] []).outcome = .ok [1,0,1,0,0,0,0,0] ∧
     sectorSyndrome hzToric22 [1,0,1,0,0,0,0,0] = [0,0,0,0] ∧
-    ¬ Solves 8 hzToric22 [1,0,1,0] (ufSolve hzToric22 [1,0,1,0]) := by
+    ¬ Solves 8 hzToric22 [1,0,1,0] (oldUfSolve hzToric22 [1,0,1,0]) := by
   refine ⟨by decide, by decide +kernel, by decide, ?_⟩
   intro h
-  have h1 : ufSolve hzToric22 [1,0,1,0] = [1,0,1,0,0,0,0,0] := by decide +kernel
+  have h1 : oldUfSolve hzToric22 [1,0,1,0] = [1,0,1,0,0,0,0,0] := by decide +kernel
   rw [h1] at h
   exact absurd h.2.2 (by decide)
+
+/-- **the repaired code succeeds on the same input** (`shared.argmax(axis=1)`: one qubit per
+    leaf): the answer is qubit 0 alone, with the measured syndrome. -/
+theorem uf_fixed_on_parallel_edges :
+    (decodeWith hzToric22 [1,0,1,0] []).outcome = .ok [1,0,0,0,0,0,0,0] ∧
+    sectorSyndrome hzToric22 [1,0,0,0,0,0,0,0] = [1,0,1,0] ∧
+    Solves 8 hzToric22 [1,0,1,0] (ufSolve hzToric22 [1,0,1,0]) := by
+  refine ⟨by decide +kernel, by decide, ?_⟩
+  have h1 : ufSolve hzToric22 [1,0,1,0] = [1,0,0,0,0,0,0,0] := by decide +kernel
+  rw [h1]
+  exact ⟨by decide, by decide, by decide⟩
+
+/-- the general theorem applies to the witness matrix: EVERY error on the 8 qubits, every
+    schedule (the kernel-evaluated run above is the instance `v = 10000000`, list order) -/
+example (v : Vec) (hv : v.length = 8) (sched : List (List Int)) :
+    ∃ c, (decodeWith hzToric22 (sectorSyndrome hzToric22 v) sched).outcome = .ok c ∧
+      sectorSyndrome hzToric22 c = sectorSyndrome hzToric22 v := by
+  obtain ⟨c, h1, _, _, h2, _⟩ := uf_decode_total hzToric22 uf_toric22_closedMultigraph v hv sched
+  exact ⟨c, h1, h2⟩
+
+/-- `Toric2DCode(2,3).Hz` (6 vertices, 12 qubits; the vertices `(0,y)`, `(2,y)` are joined by two
+    qubits: columns 0 and 3, 1 and 4, 2 and 5) -/
+def hzToric23 : Mat :=
+  [[1,0,0,1,0,0,1,0,1,0,0,0],[0,1,0,0,1,0,1,1,0,0,0,0],[0,0,1,0,0,1,0,1,1,0,0,0],
+   [1,0,0,1,0,0,0,0,0,1,0,1],[0,1,0,0,1,0,0,0,0,1,1,0],[0,0,1,0,0,1,0,0,0,0,1,1]]
+
+/-- a second kernel-checked side-2 instance: parallel edges, closed multigraph, and the run on
+    the syndrome of X errors on qubits 0 and 7 (list order) reproduces that syndrome -/
+example : graphLike hzToric23 = false ∧ closedMultigraph hzToric23 = true ∧
+    ∃ c, (decodeWith hzToric23 (sectorSyndrome hzToric23 [1,0,0,0,0,0,0,1,0,0,0,0]) []).outcome = .ok c ∧
+      sectorSyndrome hzToric23 c = sectorSyndrome hzToric23 [1,0,0,0,0,0,0,1,0,0,0,0] := by
+  refine ⟨by decide +kernel, by decide +kernel, ?_⟩
+  exact ⟨(ufSolve hzToric23 (sectorSyndrome hzToric23 [1,0,0,0,0,0,0,1,0,0,0,0])),
+    by decide +kernel, by decide +kernel⟩
+
+/-- **the repair is conservative**: on every simple graph (the matrices on which the code before
+    the repair was proved correct: `Toric2DCode` with sides ≥ 3, planar codes), for every
+    syndrome vector and every schedule, `Support.decode()` before and after the repair return
+    the same outcome and flags (the peeling traces are equal round for round: a leaf and its
+    parent share exactly one member qubit there, so "all of them" and "the first" coincide). -/
+theorem uf_fix_conservative (H : Mat) (hG : graphLike H = true) (sy : Vec)
+    (sched : List (List Int)) : oldDecodeWith H sy sched = decodeWith H sy sched :=
+  oldDecodeWith_eq hG sy sched
+
+/-- hence the solver before the repair satisfied the contract on every closed SIMPLE graph
+    (what was proved about it before the repair) -/
+theorem old_uf_solver_contract (H : Mat) (hC : closedGraph H = true) :
+    UfValidOn (ncols H) oldUfSolve H := by
+  have hG : graphLike H = true := by
+    unfold closedGraph at hC; simp only [Bool.and_eq_true] at hC; exact hC.1
+  have : oldUfSolve H = ufSolve H := by
+    funext sy
+    unfold oldUfSolve ufSolve
+    rw [oldDecodeWith_eq hG sy []]
+  intro sy hsy
+  rw [this]
+  exact uf_solver_contract H (closedGraph_multi hC) sy hsy
+
+/-! ### the bound 256 on parallel edges -/
+
+/-- two stabilizers joined by 256 qubits -/
+def hPar256 : Mat := [List.replicate 256 1, List.replicate 256 1]
+
+set_option maxRecDepth 100000 in
+/-- **the bound of `multigraphLike` is necessary**: with 256 parallel edges the `uint8` entry of
+    `H @ H.T` wraps to 0, the two stabilizers are not adjacent in `(H @ H.T).astype(bool)` and
+    `_build_tree` for the cluster {0, 1} never reaches stabilizer 1 (fuel exhausted; the real
+    `Support([1,1], H).decode()` hangs in `while np.sum(unseen) > 0` for exactly 256 columns and
+    answers correctly for 255 and 257: observed on the implementation).  No code family of panqec
+    comes near (at most 2 parallel edges: `Toric2DCode` with a side of length 2). -/
+theorem uf_build_tree_wraps_at_256 :
+    multigraphLike hPar256 = false ∧
+    shared hPar256 (fun s => decide (s < 2)) (fun q => decide (q < 256)) 0 1 = false ∧
+    (buildTree hPar256 (fun s => decide (s < 2)) (fun q => decide (q < 256)) 0).isNone = true := by
+  refine ⟨by decide +kernel, by decide +kernel, by decide +kernel⟩
 
 /-! ### non-vacuity: `Toric2DCode(3, 3)` and `Planar2DCode(2, 2)` -/
 
@@ -189,8 +293,9 @@ def hzToric33 : Mat :=
    [0,0,0,1,0,0,1,0,0,0,0,0,0,0,0,1,0,1],[0,0,0,0,1,0,0,1,0,0,0,0,0,0,0,1,1,0],
    [0,0,0,0,0,1,0,0,1,0,0,0,0,0,0,0,1,1]]
 
-/-- the hypothesis holds on the lattices the decoder is allowed for (sides ≥ 3) … -/
-example : closedGraph hzToric33 = true := by decide +kernel
+/-- the hypothesis holds on the lattices the decoder is allowed for: sides ≥ 3 (simple) … -/
+example : closedGraph hzToric33 = true ∧ closedMultigraph hzToric33 = true := by
+  refine ⟨by decide +kernel, by decide +kernel⟩
 
 /-- … the growth loop terminates there and the answer has the measured syndrome
     (X errors on qubits 0, 5, 7) -/
@@ -220,16 +325,16 @@ def toric33 : Mat :=
    [0,0,0,0,0,0,0,1,1,0,1,0,0,0,0,0,1,0,0,0,0,0,0,0,0,0,0,0,0,0,0,0,0,0,0,0],
    [0,0,0,0,0,0,1,0,1,0,0,1,0,0,0,0,0,1,0,0,0,0,0,0,0,0,0,0,0,0,0,0,0,0,0,0]]
 
-/-- the end-to-end theorem applies to the real code: CSS, both sector matrices closed graphs
-    on 18 qubits -/
-example : isCss toric33 = true ∧ closedGraph (Hz toric33) = true ∧ closedGraph (Hx toric33) = true ∧
+/-- the end-to-end theorem applies to the real code: CSS, both sector matrices closed
+    multigraphs on 18 qubits -/
+example : isCss toric33 = true ∧ closedMultigraph (Hz toric33) = true ∧ closedMultigraph (Hx toric33) = true ∧
     ncols (Hz toric33) = 18 ∧ ncols (Hx toric33) = 18 := by
   refine ⟨by decide +kernel, by decide +kernel, by decide +kernel, by decide +kernel, by decide +kernel⟩
 
 /-- `Planar2DCode(2,2).Hz`: graph-like (columns of weight 1 are dangling edges) … -/
 def hzPlanar22 : Mat := [[1,0,1,0,1],[0,1,0,1,1]]
 
-example : graphLike hzPlanar22 = true := by decide
+example : graphLike hzPlanar22 = true ∧ multigraphLike hzPlanar22 = true := by decide
 
 /-- … but a single defect makes the growth loop diverge (the implementation hangs): the
     termination gap of `uf_decode_partial` is real on matrices with columns of weight 1 -/
